@@ -500,6 +500,9 @@ def ext_module_qualname(pmod: vckt.ExternalModule) -> str:
 def export_external_module(emod: ExternalModule) -> vckt.ExternalModule:
     """Export an `ExternalModule`"""
 
+    # Its fields may have been edited since it was constructed: check them as the constructor did
+    emod._check_header()
+
     # Create the Proto-ExternalModule
     qname = vlsir.utils.QualifiedName(name=emod.name, domain=emod.domain)
     pmod = vckt.ExternalModule(name=qname, spicetype=emod.spicetype.to_schema())
